@@ -98,6 +98,11 @@ func genC01(seed uint64, tier string) *plan.Plan {
 	if slowConsumer {
 		pl.Cfg["window"] = []int64{2048, 8192, 65536}[r.IntN(3)]
 	}
+	if tr == 1 && pl.Cfg["lossy"] == 0 && !longUDP && !hugeTTL && r.IntN(2) == 0 {
+		// over UDP nothing pushes back on the exporter: datagrams wait in the socket and inside the
+		// collector while the consumer is away, and come out in the order they arrived
+		slowConsumer = true
+	}
 	for sess := 0; sess < nSess; sess++ {
 		nT := 1 + r.IntN(3)
 		sizes := make([]int, nT)
@@ -110,6 +115,7 @@ func genC01(seed uint64, tier string) *plan.Plan {
 			pl.Ops = append(pl.Ops, plan.Op{K: "tmpl", T: sess, A: int64(i), N: pickElems(r, n, false)})
 		}
 		nOps := 2 + r.IntN(9)
+		burst := 0
 		for i := 0; i < nOps; i++ {
 			slot := r.IntN(nT)
 			maxVar := []int64{0, 10, 254, 255, 256, 300, 2000, 65535}[r.IntN(8)]
@@ -126,10 +132,19 @@ func genC01(seed uint64, tier string) *plan.Plan {
 				op.F = []plan.Op{{K: "size", A: int64(65535 - r.IntN(3))}} // a message of exactly (or nearly) the maximum size
 				op.B = 1
 			}
-			if slowConsumer && r.IntN(3) == 0 {
+			if slowConsumer && burst == 0 && len(pl.Ops) < 60 && r.IntN(3) == 0 {
 				pl.Ops = append(pl.Ops, plan.Op{K: "cstall", T: sess, B: []int64{50, 900, 4000, 7000, 30000, 120000}[r.IntN(6)]})
+				if tr == 1 {
+					// a burst of datagrams while the consumer is away: several wait inside the collector
+					burst = 3 + r.IntN(4)
+					nOps += burst
+				}
 			}
 			pl.Ops = append(pl.Ops, op)
+			if burst > 0 {
+				burst--
+				continue
+			}
 			if r.IntN(5) == 0 {
 				pl.Ops = append(pl.Ops, plan.Op{K: "adv", T: sess, A: int64(r.IntN(3000)) * int64(time.Millisecond)})
 			}
